@@ -28,6 +28,7 @@ ASSUMPTIONS = [
     "observation through a finalize_query hook defined in the harness's backend subclass (state seen by the conversion) and a template post-processing item (state seen by the item)",
 ]
 OPS = ["load", "conv_coll_state", "conv_coll_plain", "conv_rule_state", "conv_rule_plain", "init", "share_init", "share_conv", "other_backend", "backend_option",
+       "parse_two_step", "validate",
        "fail_pipeline", "fail_placeholder", "fail_value", "fail_missing", "fail_noteq"]
 
 PIPE = {"name": "user", "priority": 10, "transformations": [
@@ -182,6 +183,14 @@ def run_history(case, fresh):
                 elif op == "conv_coll_plain": A.convert(coll("plain"))
                 elif op == "conv_rule_state": A.convert_rule(coll("state").rules[0])
                 elif op == "conv_rule_plain": A.convert_rule(coll("plain").rules[0])
+                elif op == "parse_two_step":      # the public two-step API: the raw parse, post-processed by the caller (as validators and tools do)
+                    for r in coll("state", "plain").rules:
+                        for pc in r.detection.parsed_condition:
+                            pc.parse(False).postprocess(r.detection)
+                elif op == "validate":            # validators read rules (raw parses, reference checks) - they must leave no trace
+                    from sigma.validation import SigmaValidator
+                    from sigma.validators.core import validators as _vs
+                    SigmaValidator([v for n, v in sorted(_vs.items()) if "tag" not in n]).validate_rules(coll("state", "plain").rules)
                 elif op == "init": A.init_processing_pipeline()
                 elif op == "share_init": cls(P).init_processing_pipeline()
                 elif op == "share_conv": cls(P).convert(coll("state"))
